@@ -22,6 +22,7 @@ func init() {
 			ruleC17N3(r)
 			ruleC17N4(r)
 			ruleNoSwallowedErrors(r, "N5", 5, true, "/transport", "/transport/compress", "/transport/quic", "/transport/websocket", "/transport/webtransport")
+			r.borrow("C13", func() { ruleC13F5(r) }) // the negotiated parameters, not the local defaults, decide the compression mode both ends run
 		},
 	})
 }
